@@ -192,3 +192,46 @@ Proof.
   unfold first_bad, insert_nth in Hf. rewrite (first_bad_app _ _ _ _ 0 Hp) in Hf.
   apply first_bad_range in Hf. unfold insert_nth. rewrite app_length, firstn_length_le in * by lia. lia.
 Qed.
+
+(* ---- converse: every balanced token list is derivable in the grammar shape `wf`,
+   so `balanced` IS the token-level language of matched delimiters ---- *)
+Inductive pending : list tk -> list delim -> Prop :=
+| p_nil : forall w, wf w -> pending w []
+| p_open : forall l st d w, pending l st -> wf w -> pending (l ++ TOpen d :: w) (d :: st).
+
+Lemma pending_app_wf : forall l st w, pending l st -> wf w -> pending (l ++ w) st.
+Proof.
+  intros l st w H Hw. destruct H as [w0 Hw0|l0 st0 d w0 Hp Hw0].
+  - apply p_nil. apply wf_app; assumption.
+  - rewrite <- app_assoc. cbn [app]. apply p_open; [assumption|]. apply wf_app; assumption.
+Qed.
+
+Lemma delim_eqb_eq : forall a b, delim_eqb a b = true -> a = b.
+Proof. destruct a, b; cbn; intros; try discriminate; reflexivity. Qed.
+
+Lemma scan_pending : forall l st, scan [] l = Some st -> pending l st.
+Proof.
+  induction l as [|t l IH] using rev_ind; intros st H.
+  - cbn in H. inversion H; subst. apply p_nil. constructor.
+  - rewrite scan_app in H. destruct (scan [] l) as [st0|] eqn:Hs; [|discriminate].
+    specialize (IH st0 eq_refl).
+    destruct t as [d|d|]; cbn [scan] in H.
+    + inversion H; subst. apply p_open; [assumption|constructor].
+    + destruct st0 as [|d' st1]; [discriminate|].
+      destruct (delim_eqb d d') eqn:E; [|discriminate]. apply delim_eqb_eq in E. subst d'.
+      inversion H; subst st1. clear H.
+      inversion IH as [|l0 st2 d0 w Hp Hw Hl Hst]; subst.
+      rewrite <- app_assoc. cbn [app].
+      apply pending_app_wf; [assumption|].
+      change (TOpen d :: w ++ [TClose d]) with (TOpen d :: (w ++ [TClose d])).
+      apply wf_wrap. assumption.
+    + inversion H; subst. apply pending_app_wf; [assumption|constructor].
+Qed.
+
+Theorem balanced_wf : forall l, balanced l = true -> wf l.
+Proof.
+  intros l H. apply balanced_scan in H. apply scan_pending in H. inversion H; subst; assumption.
+Qed.
+
+Theorem balanced_iff_wf : forall l, balanced l = true <-> wf l.
+Proof. intros l. split; [apply balanced_wf|apply wf_balanced]. Qed.
